@@ -142,6 +142,17 @@ def r17_2(ctx: Ctx) -> RuleResult:
     alt.update(ALT_TOKENS)
     model = LexerModel(ctx.repo, ctx.folder, env_overrides=alt)
     _check_table(ctx, rr, model, alt, "custom tokens")
+    # identifier spellings are told apart exactly as written: the combined pattern must not fold letter case (two
+    # spellings that differ only in case would both match either text, and the first in rule order would win)
+    import re as _re
+
+    for label_m, lm in (("default tokens", ctx.lexer), ("custom tokens", model)):
+        if lm.master.flags & _re.IGNORECASE:
+            rr.bad(lm.compile_fn, lm.compile_fn.node, f"[{label_m}] the rule table is compiled with re.IGNORECASE: identifier spellings that differ only in "
+                   "letter case (root `$R`, fake root `$r`) are no longer distinct, and an upper-case spelling also matches the start of the lower-case keywords",
+                   construct="rules compiled with IGNORECASE")
+        else:
+            rr.ok(lm.compile_fn.loc(), f"[{label_m}] the combined pattern is case-sensitive")
     # the table is built from env attributes, one per *_token
     fn = ctx.lexer.compile_fn
     used = {
